@@ -10,6 +10,26 @@ TRUST = ("trusts the Go type checker, go/cfg, go/ssa, the documented semantics o
 
 # property id -> (claimed text, technique, design_ref)   (only built properties appear here)
 CLAIMS = {
+    "C15": (
+        "Decides the ownership discipline the property's mechanism states: every write to a package-level variable of the module (assignment, "
+        "element/field store, delete, mutating method incl. receiver-mutating module methods) is in initialisation-only code or a Register* "
+        "function called only from it; no runtime-reachable function stores into or appends to a slice owned by a possibly shared definition "
+        "object (origins Nil/Fresh/Shared/parameter propagated through function summaries with the nil-receiver return idiom); the bulk loop "
+        "has per-iteration request and sequence variables, Add before go, send before Done, a single final marker after Wait, one response "
+        "per request carrying its own ids, and payloads that do not alias reusable buffers. Not decided: data races in general, result "
+        "equivalence under interleavings.",
+        "static analysis: global-write who-may-call over an init-reachability call index, summary-based ownership/freshness analysis, shape rules on the bulk loop",
+        "§4 C15"),
+    "C18": (
+        "Decides soundness of validation structurally: from every registered document type, each field whose type is or contains a reference "
+        "type (currency code, country codes, extensions, combos, addons, regime) is listed in its struct's ValidateStruct call without an "
+        "unconditional Skip, each struct on the path has a validator, and each type is held in a way the validation library recurses into "
+        "(pointer-receiver validators on value fields are skipped by the library); every reference type's validator reaches its registry "
+        "lookup (through rule objects and package-level rule variables); documents embedding tax.Tags check the list with TagsIn; a combo is "
+        "checked against its own country's regime. 5 known findings (preceding[].tax unvalidated; tags of order/delivery/payment unchecked). "
+        "Not decided: the value-level behaviour of each rule, completeness of the registries (C19).",
+        "static analysis: type-graph reachability × parsed validation tables (field coverage), method-set check against the validation library's dispatch, call reachability",
+        "§4 C18"),
     "C14": (
         "Decides six exact crash / error shapes, not general panic-freedom: values handed to tax.Normalize (nullable members, elements of "
         "document arrays) are nil-receiver-safe or provably non-nil; dereferenced currency definitions come from constants, definition "
